@@ -172,12 +172,13 @@ def refactors(check, names):
         subprocess.run(["rsync", "-a", "--exclude", "target", "--exclude", ".git", "--exclude", "evidence", "--exclude", "replays", "--exclude", "seeded", "--exclude", "shadow", here + "/", harness + "/"], check=True)
         env = dict(os.environ, VERIF_REPO=repo, VERIF_SCALE=os.environ.get("VERIF_SCALE", "0.15"))
         out = []
-        for pid in ALL_CHECKS:
+        only = os.environ.get("VERIF_REFAC_CHECKS")
+        for pid in (only.split(",") if only else ALL_CHECKS):
             c = subprocess.run([os.path.join(harness, "check"), pid, "quick"], cwd=harness, env=env, stdout=subprocess.PIPE, stderr=subprocess.PIPE, text=True)
             if c.returncode != 0:
                 detail = [l for l in (c.stdout + c.stderr).splitlines() if l.startswith("violation of") or l.startswith("VIOLATION") or l.startswith("HARNESS")]
                 out.append((pid, c.returncode, detail[:2]))
-        print(f"{name:50s} {'QUIET (all 15 checks exit 0)' if not out else 'ALARM ' + str(out)}", flush=True)
+        print(f"{name:50s} {('QUIET (' + (only or 'all 15 checks') + ' exit 0)') if not out else 'ALARM ' + str(out)}", flush=True)
         bad += len(out)
         shutil.rmtree(work, ignore_errors=True)
     return 0 if bad == 0 else 1
